@@ -326,7 +326,7 @@ func c05Delegation(c *Ctx) {
 			c.Ok(sp.fn, c.P.FuncPos(fn), "delegates to "+sp.callee)
 		}
 	}
-	c.Floor("delegating API methods", n, 9)
+	c.Floor("delegating API methods", n, 5)
 }
 
 // ---- exceedsMaxWaitTime ----------------------------------------------------------------------------------
@@ -695,6 +695,11 @@ func c05Builders(c *Ctx) {
 		cfg := ev.Param(fn, fn.Params[0].Name())
 		interval := ev.LoadField(ev.NewState(), cfg, "interval")
 		for _, p := range ev.Run(fn) {
+			if p.Exit != ExitReturn || len(p.Rets) == 0 {
+				ok = false
+				c.Fail(c.fn(fn), c.P.FuncPos(fn), "Build must return a fresh limiter with fresh stats over the builder's configuration", pathTrace(ev, p))
+				continue
+			}
 			r := p.Rets[0]
 			st := ev.LoadField(p.State, r, "stats")
 			smooth := p.State.Facts.Truth(ts, ts.Cmp("!=", interval, ts.LinConst(0, interval.Typ)))
